@@ -273,6 +273,21 @@ def build_el(st, uid, sst=None):
             # the other accepted form: a Selector object and one Sequence
             return lena.flow.RunIf(lena.flow.Selector(mk_selector(st["p"])), lena.core.Sequence(*inner))
         return lena.flow.RunIf(mk_selector(st["p"]), *inner)
+    if t == "runifx":
+        # a RunIf whose sequence EXPANDS a selected value into several results: a Split with (optionally) an ordinary
+        # branch and a Source whose flow is an instrumented generator (fresh for every selected value; m values or
+        # infinitely many), optionally followed by a callable.  The pulls from that flow are on the clock of the case,
+        # so how far the inner sequence was driven when a result is handed over is observable.
+        brs = []
+        if st.get("f"):
+            brs.append(mk_callable(st["f"]))
+        brs.append(lena.core.Source(lambda st=st: source(st["m"], sst, st.get("pairs", False), st["base"])))
+        inner = [lena.core.Split(brs, bufsize=st.get("bufsize", 1))]
+        if st.get("post"):
+            inner.append(mk_callable(st["post"]))
+        if st.get("seqarg"):
+            return lena.flow.RunIf(lena.flow.Selector(mk_selector(st["p"])), lena.core.Sequence(*inner))
+        return lena.flow.RunIf(mk_selector(st["p"]), *inner)
     if t == "split":
         brs = []
         for b in st["branches"]:
@@ -358,6 +373,24 @@ class Box(object):
         return source(*self.args)
 
 
+class Opener(object):
+    """the first element of a Source that does its work when it is CALLED (like a function that opens a file) and
+    returns an iterator: the call is the first thing the pipeline takes from that input and advances the clock of
+    the case once; the values come from an instrumented generator."""
+
+    def __init__(self, n, st, pairs, start):
+        self.args = (n, st, pairs, start)
+
+    def __call__(self):
+        self.args[1].clock += 1
+        self.args[1].alive_log.append(self.args[1].alive)
+        return source(*self.args)
+
+
+def opens(part):
+    return 1 if part.get("kind") in ("fn", "obj") else 0
+
+
 class TickVal(Val):
     """the start value given to CountFrom: itertools.count computes `value + step` once per value it hands out, so
     the addition is the pull event of that (otherwise unobservable) infinite Source"""
@@ -388,7 +421,7 @@ def head_parts(case):
         out.append((p["n"], start, p.get("kind", "gen")))
         start += p["n"]
     if case["head"].get("inf"):
-        out.append((None, start, "gen"))
+        out.append((None, start, case["head"].get("infkind", "gen")))
     return out
 
 
@@ -402,7 +435,13 @@ def build_head(case, st):
     parts = head_parts(case)
     if case["via"] == "splitcall":
         # a Split of Sources is itself a Source: Split.__call__ chains them
-        return lena.core.Split([lena.core.Source(lambda a=a: source(a[0], st, pairs, a[1])) for a in parts],
+        def first(a):
+            if a[2] in ("fn", "obj"):
+                return Opener(a[0], st, pairs, a[1]) if a[2] == "obj" else Opener(a[0], st, pairs, a[1]).__call__
+            return lambda a=a: source(a[0], st, pairs, a[1])
+        # ("late": Sources placed after the infinite one - they are never reached, so they must never be started)
+        late = [(q["n"], 10 ** 6, q.get("kind", "gen")) for q in case["head"].get("late", [])]
+        return lena.core.Split([lena.core.Source(first(a)) for a in parts + late],
                                bufsize=case["head"].get("bufsize", 1000))
     its = []
     for n, start, kind in parts:
@@ -612,6 +651,13 @@ def _strip(st):
         return {"t": "slice", "start": a, "stop": b, "step": s}
     if t == "runif":
         return {"t": "runif", "p": st["p"], "inner": [_strip(s) for s in st["inner"]]}
+    if t == "runifx":
+        brs = ([{"k": "seq", "stages": [{"t": "map", "f": st["f"]}]}] if st.get("f") else []) + \
+            [{"k": "src", "m": 3 if st["m"] is None else st["m"], "base": st["base"]}]
+        inner = [{"t": "split", "bufsize": st.get("bufsize", 1), "copy": True, "branches": brs}]
+        if st.get("post"):
+            inner.append({"t": "map", "f": st["post"]})
+        return {"t": "runif", "p": st["p"], "inner": inner}
     if t == "split":
         brs = []
         for b in st["branches"]:
@@ -631,6 +677,10 @@ def _strip(st):
     return st
 
 
+def has_runifx(stages, infinite_only=False):
+    return any(st["t"] == "runifx" and (st["m"] is None or not infinite_only) for st in stages)
+
+
 def has_isrc(stages, infinite_only=False):
     return any(st["t"] == "split" and any(b["k"] == "isrc" and (b["m"] is None or not infinite_only)
                                           for b in st["branches"]) for st in stages)
@@ -642,7 +692,15 @@ def model_requests(case):
     base = {"stages": stages, "n": case["n"]}
     if case.get("via") in ("chain", "splitcall"):
         # the input is a chain of instrumented iterables: `Pipe.ofHead`
-        base["head"] = {"parts": [p["n"] for p in case["head"]["parts"]], "inf": bool(case["head"].get("inf"))}
+        # (the call of a first element that works when called costs one tick at the moment its flow is demanded: on the
+        # clock that is an empty iterable before it, whose only event is the tick at which it is found exhausted)
+        base["head"] = {"parts": [x for p in case["head"]["parts"] for x in [0] * opens(p) + [p["n"]]] +
+                                 [0] * opens({"kind": case["head"].get("infkind")}),
+                        "inf": bool(case["head"].get("inf"))}
+    if has_runifx(case["stages"]):
+        # the Lean model of RunIf evaluates the inner sequence of a selected value at once (its documented abstraction):
+        # only the VALUES (list semantics) are compared for these cases, with every infinite flow cut short
+        return [dict(base, n=3 if case["n"] is None else case["n"], op="den")]
     reqs = [dict(base, op="run", k=MAXRES if k is None else k, fuel=FUEL)]
     # the consumer stop points (at most three per case) and the second run of a re-used pipeline object
     for kk in case.get("ks", [])[:3]:
@@ -665,6 +723,11 @@ def compare(case, res, replies):
     m = replies[0]
     if "err" in m:
         return f"model driver error: {m['err']}"
+    if has_runifx(case["stages"]):
+        if case["n"] is not None and not has_runifx(case["stages"], True) and not has_isrc(case["stages"], True) \
+                and res["end"] == "exhausted" and [x[:2] for x in res["r"]] != m["r"]:
+            return f"Lean list semantics {m['r']} differs from the implementation's values {[x[:2] for x in res['r']]}"
+        return None
     nk = len(case.get("ks", [])[:3])
     stop_replies = replies[1:1 + nk]
     second_reply = replies[1 + nk] if case.get("reuse") is not None else None
@@ -982,6 +1045,31 @@ def ref_stage(st, sf, state=None):
             else:
                 out.append((v, c))
         return (c0, out, cf)
+    if t == "runifx":
+        # what a selected value is expanded into is demanded result by result: the result of the ordinary branch needs
+        # nothing beyond the value itself, value i of the Source needs i + 1 pulls from it, the end of the group one
+        # more; everything later comes after the pulls the earlier groups needed
+        p = pred_on_int(st["p"])
+        f = fn_on_int(st["f"]) if st.get("f") else None
+        g = fn_on_int(st["post"]) if st.get("post") else (lambda d: d)
+        out, shift = [], 0
+        for v, c in vals:
+            if c >= INF or shift >= INF:
+                out.append((v, INF))
+                continue
+            if not p(v[0]):
+                out.append((v, c + shift))
+                continue
+            if f is not None:
+                out.append(((g(f(v[0])), v[1]), c + shift))
+            m = st["m"]
+            for i in range(REF_PREFIX if m is None else m):
+                out.append(((g(st["base"] + i), {}), c + shift + i + 1))
+            if m is None:
+                shift = INF
+                break                   # nothing after an infinite group is ever reached
+            shift += m + 1
+        return (c0, out, INF if shift >= INF or cf >= INF else cf + shift)
     if t == "split":
         return ref_split(st, sf, state)
     raise ValueError(t)
@@ -994,12 +1082,14 @@ def head_flow(case):
     if case.get("via") in ("chain", "splitcall"):
         vals, clock, i = [], 0, 0
         for p in case["head"]["parts"]:
+            clock += opens(p)            # a first element that works when called is called when its flow is demanded
             for _ in range(p["n"]):
                 clock += 1
                 vals.append(((i, {}), clock))
                 i += 1
             clock += 1
         if case["head"].get("inf"):
+            clock += opens({"kind": case["head"].get("infkind")})
             for _ in range(REF_PREFIX):
                 clock += 1
                 vals.append(((i, {}), clock))
@@ -1132,6 +1222,7 @@ def oracle(case, res):
         bound = cap + min(cnt, 2) + 3      # frame locals: measured excess over the documented buffers is at most 4
         # a Source inside a Split buffers nothing; the value it produced last stays bound to a loop variable
         bound += sum(1 for st in case["stages"] if st["t"] == "split" for b in st["branches"] if b["k"] == "isrc")
+        bound += sum(3 for st in case["stages"] if st["t"] == "runifx")     # (block of the inner Split, loop variables)
         if res["max_alive"] > bound:
             return (f"{name}: {res['max_alive']} input values were alive at a pull; the elements document buffers of "
                     f"{cap} values in total (allowing {bound} with frame locals)")
@@ -1156,6 +1247,11 @@ def describe(case):
             return f"Count({st['name']},{st['c0']})"
         if t == "runif":
             return f"RunIf({st['p']},{','.join(d(s) for s in st['inner'])})"
+        if t == "runifx":
+            return "RunIf(%s,Split([%sSource(<%s>)])%s)" % (
+                st["p"], "callable%s," % st["f"] if st.get("f") else "",
+                "infinite generator" if st["m"] is None else "generator of %d values" % st["m"],
+                ",callable%s" % st["post"] if st.get("post") else "")
         if t == "split":
             bs = []
             for b in st["branches"]:
@@ -1176,8 +1272,12 @@ def describe(case):
         return str(st)
     src = "infinite input" if case["n"] is None else f"input of {case['n']} values"
     if case.get("via") in ("chain", "splitcall"):
-        its = ["<%s of %d values>" % ("container" if p.get("kind") == "box" else "iterator", p["n"])
-               for p in case["head"]["parts"]] + (["<infinite iterator>"] if case["head"].get("inf") else [])
+        _kind = {"box": "container", "fn": "function that works when called, returning an iterator",
+                 "obj": "callable object that works when called, returning an iterator"}
+        its = ["<%s of %d values>" % (_kind.get(p.get("kind"), "iterator"), p["n"])
+               for p in case["head"]["parts"]] + \
+              (["<infinite %s>" % _kind.get(case["head"].get("infkind"), "iterator")] if case["head"].get("inf") else []) + \
+              ["<%s of %d values>" % (_kind.get(q.get("kind"), "iterator"), q["n"]) for q in case["head"].get("late", [])]
         first = ("Chain(%s)" % ", ".join(its) if case["via"] == "chain"
                  else "Split([%s])" % ", ".join("Source(%s)" % x for x in its))
         return f"Source({', '.join([first] + [d(s) for s in case['stages']])})()"
@@ -1596,11 +1696,73 @@ def source_cases(tier):
     return cases
 
 
+def demand_cases(tier):
+    """work that is only demanded inside the pipeline.  (1) A RunIf whose sequence expands a selected value into a group
+    of results (an ordinary branch and an instrumented Source of 0..3 or infinitely many values in a Split, a
+    callable after it): every consumer stop point, in particular in the middle of a group; a Slice behind an unbounded
+    group.  (2) A Split of several Sources used through __call__ whose first elements work when they are called
+    (functions / callable objects returning an iterator): a later Source is started only when the earlier ones are
+    exhausted, never behind an infinite one."""
+    cases = []
+    inc = {"t": "map", "f": ["add", 1], "impl": "callable"}
+    pres = [[], [{"t": "filter", "p": ["mod", 3, 1]}], [{"t": "count", "name": "c0", "c0": 0}], [inc]]
+    tails = [[], [_sl(1)], [_sl(2)], [_sl(3)], [_sl(5)], [inc, _sl(4)], [{"t": "count", "name": "count", "c0": 0}],
+             [_sl(-1), _sl(3)], [_sl(5, 1, 2)]]
+    j = 0
+    for m in (0, 1, 2, 3, None):
+        for f in (None, ["mul", 2]):
+            for post in (None, ["add", 1]):
+                for p in (["all"], ["mod", 2, 0], ["none"]):
+                    if p == ["none"] and (m != 2 or f or post):
+                        continue
+                    for pre in pres if tier != "quick" else pres[:1] + [pres[1 + j % 3]]:
+                        for tail in tails:
+                            if m is None and p != ["none"] and not any(s["t"] == "slice" for s in tail):
+                                continue          # (an unbounded group and no Slice after it: nothing bounded to observe)
+                            j += 1
+                            x = {"t": "runifx", "p": p, "f": f, "m": m, "base": 500, "post": post, "seqarg": j % 3 == 0,
+                                 "bufsize": [1, 2, None][j % 3]}
+                            for n in ((0, 2, None) if tier == "quick" else (0, 1, 2, 3, None)):
+                                if n is None:
+                                    cases.append(mk_case(pre + [x] + tail, None, K=7, ks=[1, 2, 3],
+                                                         via="source" if j % 2 else "sequence"))
+                                elif m is None:
+                                    cases.append(mk_case(pre + [x] + tail, n, K=7, ks=[1, 2, 3]))
+                                else:
+                                    tot = (n + 1) * (m + 2)
+                                    cases.append(mk_case(pre + [x] + tail, n,
+                                                         ks=[1, 2, m + 2] if tier == "quick" else list(range(tot + 1))))
+    shapes = [[2], [1, 2], [2, 0], [0, 2, 1], [3, 1, 2]] if tier == "quick" else \
+        [[0], [2], [1, 2], [2, 0], [0, 2], [0, 2, 1], [3, 1, 2], [1, 0, 2], [2, 2, 2, 2]]
+    for shape in shapes:
+        for inf in (False, True):
+            for jj, tail in enumerate(TAILS):
+                for var in range(3):
+                    # which first elements work when called: all, every second, all but the first
+                    kinds = [("gen" if (var == 1 and i % 2 == 0) or (var == 2 and i == 0) else ("fn", "obj")[(i + jj) % 2])
+                             for i in range(len(shape))]
+                    head = {"parts": [{"n": n, "kind": k} for n, k in zip(shape, kinds)], "inf": inf, "after": 0,
+                            "infkind": ("fn", "obj", "gen")[(var + jj) % 3] if inf else None}
+                    if inf and var == 0:
+                        # an infinite Source FIRST, Sources that work when called after it
+                        head2 = {"parts": [dict(q, kind="gen") for q in head["parts"][:1]], "inf": True, "after": 0,
+                                 "infkind": "gen", "late": [{"n": 2, "kind": ("fn", "obj")[jj % 2]}, {"n": 1, "kind": "fn"}]}
+                        cases.append(mk_case(tail, None, K=6, ks=[0, 1, 2], via="splitcall", head=head2))
+                    if inf:
+                        cases.append(mk_case(tail, None, K=6, ks=[0, 1, 2], via="splitcall", head=head))
+                    else:
+                        tot = sum(shape)
+                        cases.append(mk_case(tail, None, ks=[0, 1, 2, tot] if tier == "quick" else list(range(tot + 3)),
+                                             via="splitcall", head=head))
+    return cases
+
+
 def gen_cases(ctx):
     rng = ctx.rng
     tier = ctx.tier
     yield from fixed_cases(tier)
     yield from source_cases(tier)
+    yield from demand_cases(tier)
     # every Slice with start, stop in {None, -3..3} and step in {None, 1, 2}, alone, over flows of 0..6 values
     idx = [None, -3, -2, -1, 0, 1, 2, 3]
     lens = [0, 1, 2, 3, 4, 6] if tier == "quick" else list(range(0, 9))
@@ -1720,7 +1882,15 @@ RULE = ("quick and thorough: fixed cases (documented examples; negative Slice ov
         "at every position among sequence / fill-compute / fill-request branches, bufsize 1, 2, None, followed by nothing "
         "or a Slice, over empty, finite and infinite inputs; the same heads (19% of the cases) and Source branches (8% of "
         "the branches) in the random pipelines; 6% of the Slices spelled ISlice. All instrumented generators of a case "
-        "advance one clock. Non-trivial: at least one element and one result.")
+        "advance one clock. Work demanded inside the pipeline (seed round K/L, demand_cases: 2363 quick / 7501 thorough): "
+        "RunIf whose sequence expands a selected value into a group of results (Split of an optional callable and a "
+        "Source with an instrumented flow of 0..3 or infinitely many values, optional callable after it; selector all / "
+        "even / none; bufsize 1, 2, None; RunIf given callables or a Selector and a Sequence) after nothing / Filter / Count "
+        "/ a callable and before 9 tails (nothing, Slice(1..5), callable+Slice, Count, negative Slice, stepped Slice), over "
+        "0..3 and infinitely many input values, consumer stop points inside every group; Split of 1..4 Sources used "
+        "through __call__ whose first elements are functions / callable objects that work when called (all, every second, "
+        "all but the first; an infinite last one; Sources placed after an infinite one). "
+        "Non-trivial: at least one element and one result.")
 TRUSTED = [
     "Lean 4.33.0 kernel; axioms limited to propext, Classical.choice, Quot.sound (audited by #print axioms on every run)",
     "hand transcription of the run methods (Run._call_run, Filter.run, RunIf.run, Slice.run/itertools.islice, "
@@ -1779,6 +1949,27 @@ ASSUMPTIONS = [
     "statement inside its quantifier (a Slice(n) after an infinite Source must terminate; only |index| values are kept "
     "alive) - none was judged outside; RunningChunkBy, Reverse, End, StoreFilled (same files) are not among the "
     "elements the quantifier lists and are not exercised",
+    "seed round K/L, judgements: C02-K (RunIf.run collects list(seq.run([val])) before yielding) violates the statement "
+    "inside its quantifier wherever the group a selected value is expanded into takes pulls from an input flow of the "
+    "pipeline (a Source in a Split in the RunIf sequence - RunIf, Split and their Sources are in the quantifier): "
+    "'after its consumer has taken k results it has pulled from its input only the shortest prefix that determines "
+    "those k results' (a finite group is pulled to its end before its first result is handed over) and 'so that a "
+    "Slice(n) placed after an infinite Source terminates' (an unbounded group). Calls of user callables for results "
+    "nobody took, with no pull from any input involved (the seed's first demo: a generator-function expander, which "
+    "is not an element the quantifier lists, and a call counter), are NOT what the statement bounds (it bounds work at "
+    "build/run() time and pulls from the input) - the oracle does not count calls. C02-L (Split.__call__ starts every "
+    "Source at the first next()) violates the same two sentences: calling the first element of a Source is the first "
+    "thing the pipeline takes from that input, and it is taken before the results so far need it, also behind an "
+    "infinite Source. Observed through first elements that work when called (plain functions / callable objects that "
+    "tick the clock once and return an instrumented generator). A later Source ending in a FillCompute element (the "
+    "seed's second demo) is outside the element list of the quantifier and not generated",
+    "RunIf with an expanding sequence (runifx cases): the Lean model of RunIf evaluates seq.run([val]) at once (its "
+    "documented abstraction), so for these cases the correspondence compares the VALUES only (list semantics, op den); "
+    "the stamps are checked by the oracle's reference computation alone - a Lean theorem about laziness inside a "
+    "group is missing (open)",
+    "a first element that works when called is represented in the Lean model by an empty iterable placed before its "
+    "flow (one tick when it is reached, nothing before): chain_produces / sources_lazy / sources_lazy_infinite then "
+    "cover it unchanged",
 ]
 LEVEL_TEXT = ("Lean 4 theorems about pull-based generator models of the streaming elements, for all pipelines, all finite "
               "and infinite inputs and all consumer stop points (no bound): the consumer's trace and pull count equal a "
